@@ -906,6 +906,13 @@ func printFP(t *Term) string {
 	case "isfromubv32":
 		return fmt.Sprintf("(= ((_ to_fp 8 24) %s) ((_ to_fp_unsigned 8 24) RNE %s))", ref(a), ref(t.B))
 	}
+	if strings.HasPrefix(t.Name, "isunary:") { // a = roundToIntegral/sqrt(b)
+		mode := strings.TrimPrefix(t.Name, "isunary:")
+		if mode == "sqrt" {
+			return fmt.Sprintf("(= %s (fp.sqrt RNE %s))", fa(a), fa(t.B))
+		}
+		return fmt.Sprintf("(= %s (fp.roundToIntegral %s %s))", fa(a), mode, fa(t.B))
+	}
 	if strings.HasPrefix(t.Name, "isop:") { // a = op(b, c) with t.A result bits; operands packed in B,C
 		op := strings.TrimPrefix(t.Name, "isop:")
 		return fmt.Sprintf("(= %s (fp.%s RNE %s %s))", fa(a), op, fa(t.B), fa(t.C))
